@@ -139,6 +139,9 @@ structure Verdict where
   cls : String := ""
   /-- sort-key tie: exact co-simulation skipped (DESIGN §2.4) -/
   tie : Bool := false
+  /-- per-property results (property id, holds, why-not, signature) when one op serves several properties;
+      a check for property P reads its own entry and falls back to `spec` -/
+  props : List (String × Bool × String × String) := []
 
 abbrev Handler := Json → E Verdict
 
